@@ -97,7 +97,7 @@ CHECKS = {
                 'every other field untouched, to keep the invariant, with every unchecked index, unchecked str slice (at a proved char boundary) and '
                 'unwrap_unchecked proved safe; idempotence is a lemma over each rule.',
         'design_ref': 'DESIGN.md section 5.C15',
-        'note': 'The grapheme filter is proved against an assumed contract of the unicode-segmentation call (uninterpreted first_cluster, 1 <= size <= remaining length); that the crate implements UAX #29 is checked by the bounded sweep with known-answer cluster boundaries only. Not covered by proof: pattern tagger (hashbrown).',
+        'note': 'PatternMatchTagger::filter is proved too (unit F_tagger): every tag slot afterwards equals tagged_slot(rules, text, boundaries, old tags) - an absent tag of a token whose surface is a key becomes the rule row entry for that slot, everything else is unchanged - with frame, idempotence and the tag index in range, against an assumed contract of hashbrown HashMap::get. The grapheme filter is proved against an assumed contract of the unicode-segmentation call (uninterpreted first_cluster, 1 <= size <= remaining length); that the crate implements UAX #29 is checked by the bounded sweep with known-answer cluster boundaries only.',
         'technique': TECH + '; rule as a spec function + frame postcondition',
     },
     'C16': {
